@@ -32,6 +32,8 @@ def run(ctx, chk):
     r1(ctx, chk)
     r2(ctx, chk)
     r3(ctx, chk)
+    from .c08 import r5 as recovery_rule
+    recovery_rule(ctx, chk, "C10.R4")
 
 
 def r1(ctx, chk):
